@@ -171,7 +171,7 @@ fn gen_link(rng: &mut Rng, v: &Vocab, t1: &str, t2: &str, x: &str) -> Option<C> 
         ("RESOURCE", "ANNOTATION") => C::ResVar(x, r == 0),
         ("DATASET", "ANNOTATION") => C::SetVar(x, false),
         ("DATA", "ANNOTATION") => C::DataVar(x, false),
-        ("KEY", "ANNOTATION") => if r == 0 { let (_, _, val) = v.data.get(rng.below(v.data.len().max(1)))?.clone(); C::KeyValVar(x, val, false) } else { C::KeyVar(x, false) },
+        ("KEY", "ANNOTATION") => if r < 2 { let (_, _, val) = v.data.get(rng.below(v.data.len().max(1)))?.clone(); C::KeyValVar(x, val, false) } else { C::KeyVar(x, false) },
         ("TEXT", "ANNOTATION") => if r == 0 { C::TextVar(x) } else { C::Rel(x, REL_OPS[rng.below(REL_OPS.len())]) },
         ("ANNOTATION", "DATA") => C::AnnVar(x, r == 0, false),
         ("DATASET", "DATA") => C::SetVar(x, false),
@@ -228,7 +228,7 @@ fn run_spec(store: &AnnotationStore, spec: &QSpec, built: bool) -> Result<Rows, 
 
 /// nested iteration, level by level, each level a query without sub-queries run with the outer variables bound;
 /// also returns the shape of the iteration as a tree (for the Lean model): `x[ children ]`
-fn nested<'s>(store: &'s AnnotationStore, spec: &'s QSpec, bound: &Vec<(String, QueryResultItem<'s>)>, tree: &mut String, consts: &mut Vec<(C, C, String, QueryResultItem<'s>)>) -> Result<Rows, String> {
+fn nested<'s>(store: &'s AnnotationStore, spec: &'s QSpec, bound: &Vec<(String, QueryResultItem<'s>)>, tree: &mut String, consts: &mut Vec<(C, C, String, QueryResultItem<'s>, &'static str)>) -> Result<Rows, String> {
     let mut query = Query::new(QueryType::Select, Some(rtype_of(spec.rtype)), Some(spec.var.as_str()));
     for c in &spec.cons { query = query.with_constraint(c.build()); }
     for (n, it) in bound { query.bind_from_result(n.clone(), it); }
@@ -239,7 +239,7 @@ fn nested<'s>(store: &'s AnnotationStore, spec: &'s QSpec, bound: &Vec<(String, 
         if i > 0 { tree.push(','); }
         tree.push_str(&row_item(&item));
         // remember (variable constraint, its constant form) pairs for the cross-check
-        for (n, it) in bound.iter().rev().take(1) { for c in &spec.cons { if let Some(k) = constant_form(c, it) { if consts.len() < 4 { consts.push((c.clone(), k, n.clone(), it.clone())); } } } }
+        for (n, it) in bound.iter().rev().take(1) { for c in &spec.cons { if let Some(k) = constant_form(c, it) { if consts.len() < 4 { consts.push((c.clone(), k, n.clone(), it.clone(), spec.rtype)); } } } }
         match &spec.sub {
             None => out.push(vec![row_item(&item)]),
             Some(sub) => {
@@ -412,8 +412,19 @@ pub fn check_store2(rep: &mut Report, script: &[String], rng: &mut Rng) {
             (Err(e), Ok(b)) => if !b.is_empty() { rep.fail("oracle", &format!("C08/subquery-acceptance/{}/{}", sig, linkkw), ctx(&text), &format!("nested iteration: {} rows", b.len()), &format!("refused: {}", e)) },
         }
         // a constraint on a variable means what the constraint on the item it is bound to means
-        for (cv, ck, name, item) in consts {
-            let host = { let mut cur = Some(&outer); let mut found = None; while let Some(c) = cur { if c.cons.contains(&cv) { found = Some(c); } cur = c.sub.as_deref(); } found };
+        // (directed: a key variable with a value, for the keys of the store, on annotations and on data)
+        if rng.chance(35) {
+            for _ in 0..2 {
+                if let (Some((set, key)), Some((_, _, val))) = (v.keys.get(rng.below(v.keys.len().max(1))).cloned(), v.data.get(rng.below(v.data.len().max(1))).cloned()) {
+                    if let Some(k) = store.key(set.as_str(), key.as_str()) {
+                        consts.push((C::KeyValVar("k".into(), val.clone(), false), C::KeyValue { set, key, val, meta: false }, "k".into(), QueryResultItem::DataKey(k), if rng.chance(75) { "ANNOTATION" } else { "DATA" }));
+                    }
+                }
+            }
+        }
+        for (cv, ck, name, item, host_rtype) in consts {
+            struct Host { rtype: &'static str, cons: Vec<C> }
+            let host = Some(Host { rtype: host_rtype, cons: { let mut cur = Some(&outer); let mut found = vec![]; while let Some(c) = cur { if c.cons.contains(&cv) { found = c.cons.clone(); } cur = c.sub.as_deref(); } found } });
             if let Some(h) = host {
                 let as_var = { let mut qy = Query::new(QueryType::Select, Some(rtype_of(h.rtype)), Some("r")).with_constraint(cv.build()); qy.bind_from_result(name.clone(), &item); guarded(std::panic::AssertUnwindSafe(|| collect_rows(store, qy))) };
                 let kspec = QSpec { rtype: h.rtype, var: "r".into(), optional: false, cons: vec![ck.clone()], sub: None };
@@ -423,6 +434,24 @@ pub fn check_store2(rep: &mut Report, script: &[String], rng: &mut Rng) {
                     let sa: BTreeSet<String> = a.iter().map(|r| r.iter().map(row_item).collect::<Vec<_>>().join("+")).collect();
                     let sb: BTreeSet<String> = b.iter().map(|r| r.join("+")).collect();
                     if sa != sb { rep.fail("oracle", &format!("C08/variable-vs-constant/{}/{}", h.rtype, cv.kw()), ctx(&format!("SELECT {} ?r WHERE {};   with ?{} = {}   vs   {}", h.rtype, cv.text(), name, row_item(&item), kspec.text())), &format!("constant: {:?}", sb), &format!("variable: {:?}", sa)); }
+                }
+                // and wherever it is written: next to another constraint, before it and after it (the first constraint
+                // chooses the source, the others filter: two code paths per constraint)
+                let partner = h.cons.iter().find(|c| **c != cv && constant_form(c, &item).is_none() && !matches!(c, C::AnnVar(..) | C::ResVar(..) | C::SetVar(..) | C::DataVar(..) | C::KeyVar(..) | C::KeyValVar(..) | C::TextVar(..) | C::Rel(..))).cloned()
+                    .or_else(|| (0..6).find_map(|_| gen_c(rng, &v, h.rtype).filter(|c| !matches!(c, C::Id(_) | C::Limit(..)))));
+                if let Some(p) = partner {
+                    for first in [true, false] {
+                        let (lv, lk) = if first { (vec![cv.clone(), p.clone()], vec![ck.clone(), p.clone()]) } else { (vec![p.clone(), cv.clone()], vec![p.clone(), ck.clone()]) };
+                        let as_var = { let mut qy = Query::new(QueryType::Select, Some(rtype_of(h.rtype)), Some("r")); for c in &lv { qy = qy.with_constraint(c.build()); } qy.bind_from_result(name.clone(), &item); guarded(std::panic::AssertUnwindSafe(|| collect_rows(store, qy))) };
+                        let kspec = QSpec { rtype: h.rtype, var: "r".into(), optional: false, cons: lk, sub: None };
+                        let as_const = run_spec(store, &kspec, false);
+                        rep.count(&format!("query2:variable-vs-constant-beside-another:{}:{}:{}", h.rtype, cv.kw(), if first { "first" } else { "second" }));
+                        if let (Ok(Ok(a)), Ok(b)) = (&as_var, &as_const) {
+                            let sa: BTreeSet<String> = a.iter().map(|r| r.iter().map(row_item).collect::<Vec<_>>().join("+")).collect();
+                            let sb: BTreeSet<String> = b.iter().map(|r| r.join("+")).collect();
+                            if sa != sb { rep.fail("oracle", &format!("C08/variable-vs-constant/{}/{}/{}", h.rtype, cv.kw(), if first { "written-first" } else { "written-second" }), ctx(&format!("SELECT {} ?r WHERE {};   with ?{} = {}   vs   {}", h.rtype, lv.iter().map(|c| c.text()).collect::<Vec<_>>().join("; "), name, row_item(&item), kspec.text())), &format!("constant: {:?}", sb), &format!("variable: {:?}", sa)); }
+                        }
+                    }
                 }
             }
         }
